@@ -115,7 +115,7 @@ PROPS["C01"] = dict(
     assumptions=["ref/pehash reference implementation", "well-formed = ref/pehash.WellFormed (sections inside the content, after the headers, non-overlapping; table 8-aligned at end of file)"],
     exhaustive_note="thorough tier: every byte position of 1/32 of the images (those <= 2 KiB), class img/every_position_flipped",
     quick=dict(checks=6000, shards=4, timeout=900),
-    thorough=dict(checks=40000, shards=16, timeout=3000),
+    thorough=dict(checks=30000, shards=16, timeout=3000),
 )
 
 PROPS["C04"] = dict(
@@ -135,7 +135,7 @@ PROPS["C04"] = dict(
           "Non-trivial = mutated blob that the library parses and in which a SignerInfo names the verifying certificate (the verdict then depends on the cryptographic and binding checks); distinct by SHA-256 of (blob, certificate)."),
     assumptions=["ref/cms.Accepts is the weakest predicate the C04 statement allows", "crypto/rsa, crypto/sha256, crypto/x509 certificate parsing"],
     quick=dict(checks=9000, shards=4, timeout=900),
-    thorough=dict(checks=40000, shards=16, timeout=3000),
+    thorough=dict(checks=30000, shards=16, timeout=3000),
     fuzz=[("FuzzC04", 120)],
 )
 
